@@ -149,6 +149,6 @@ class EntropyRegularizedPolicyIteration(Plans):
             for ai, a in enumerate(mdp.action_list):
                 qf[s][a] = res._qvaluemat[si, ai]
         res.actionvaluefunc = res.Q = qf
-        res.initial_value = sum([res.V[s0]*p for s0, p in mdp.initial_state_dist().items()])
+        res.initial_value = sum([res.V[s0]*p for s0, p in mdp.initial_state_dist().items() if p > 0])
         res.policy_divergence = dict(zip(mdp.state_list, pi_res.policy_entropy))
         return res
